@@ -7,3 +7,4 @@ pub mod ops_ecc;
 pub mod zkir_gen;
 pub mod ops_native;
 pub mod regex_ref;
+pub mod s3;
